@@ -6,6 +6,7 @@
 //! Every step goes through the real `process_with_audit(&mut engine, event)`; the line records the
 //! event, the environment installed for the step (link faults, strategy script, risk refusals),
 //! the audit tick, what each execution link received, and the projected engine state.
+//! World: harness/src/world2.rs - three exchanges, six instruments.
 use barter::engine::{process_with_audit, state::trading::TradingState};
 use rand::Rng;
 use serde_json::{Value, json};
@@ -31,6 +32,8 @@ impl Driver {
     }
 
     fn step(&mut self, ev: &Value, env: &Value) {
+        // (replay files recorded in the two-exchange world: the third link is healthy)
+        let env = &Kit::normalise_env(env);
         self.t += 1;
         self.steps += 1;
         let mut evt = ev.clone();
